@@ -85,7 +85,16 @@ def step (st : St) (ws : List String) : St × String :=
     match parseCfg rest with
     | some s => (s, "ok")
     | none => (st, "bad-op")
-  | ["run", method, kind, hdr, ilogs, iout, decl, prog, route, inputs] =>
+  | "run" :: method :: kind :: hdr :: ilogs :: iout :: decl :: prog :: route :: inputs :: rest =>
+    -- optional ballast word (z<n> | r<n>): the size of the serialized state; behaviour must not depend on it
+    let padOk := match rest with
+      | [] => true
+      | [p] => (match p.toList with
+        | 'z' :: r => (String.ofList r).toNat?.isSome
+        | 'r' :: r => (String.ofList r).toNat?.isSome
+        | _ => false)
+      | _ => false
+    if !padOk then (st, "bad-op") else
     let methodOk := method = "ex" || method = "pr" || method = "exh" || method = "prh" || method = "dyn"
     let hdr? : Option (Option Nat) := if hdr = "-" then some none else match hdr.toNat? with
       | some n => if n > 0 then some (some n) else none
